@@ -2,13 +2,484 @@
 
 package main
 
+// Wire mode: drives the REAL handler chain of internal/server (logging → parse → multi → handle)
+// through a recording redcon.Conn and prints one self-contained line per request for the Lean
+// `wiredriver`. Line format (documented in lean/RedkaModel/WireProto.lean):
+//
+//	seq now wire | pre-dump | pre-state | R argc xarg… | tokens | post-dump | post-state
+//
+// state  = C<conn> <inMulti 0|1> <n> {argc xname xarg…}   (read from the real connState)
+// tokens = one per Write* call: +xHEX -xHEX :INT $xHEX _ *INT =xHEX, `.` when none, `!PANIC` last
+//          when the handler chain panicked (recovered here; the real server would die).
+
 import (
+	"bufio"
+	"flag"
 	"fmt"
+	"io"
+	"log/slog"
+	"math/rand"
+	"net"
 	"os"
+	"sort"
+	"strconv"
+	"strings"
+
+	"github.com/nalgeon/redka"
+	"github.com/nalgeon/redka/internal/server"
+	"github.com/tidwall/redcon"
 )
 
-// wireMain drives the server's handler chain (subcommand `wire`); see wire_*.go.
+// wireConn records every write call as one token and keeps the connection context, which is
+// where the server stores its per-connection MULTI state.
+type wireConn struct {
+	id   int
+	ctx  any
+	toks []string
+}
+
+func (c *wireConn) add(t string)               { c.toks = append(c.toks, t) }
+func (c *wireConn) RemoteAddr() string         { return fmt.Sprintf("verif:%d", c.id) }
+func (c *wireConn) Close() error               { return nil }
+func (c *wireConn) WriteError(msg string)      { c.add("-" + hxs(msg)) }
+func (c *wireConn) WriteString(str string)     { c.add("+" + hxs(str)) }
+func (c *wireConn) WriteBulk(bulk []byte)      { c.add("$" + hx(bulk)) }
+func (c *wireConn) WriteBulkString(bulk string) { c.add("$" + hxs(bulk)) }
+func (c *wireConn) WriteInt(num int)           { c.add(":" + strconv.Itoa(num)) }
+func (c *wireConn) WriteInt64(num int64)       { c.add(":" + strconv.FormatInt(num, 10)) }
+func (c *wireConn) WriteUint64(num uint64)     { c.add(":" + strconv.FormatUint(num, 10)) }
+func (c *wireConn) WriteArray(count int)       { c.add("*" + strconv.Itoa(count)) }
+func (c *wireConn) WriteNull()                 { c.add("_") }
+func (c *wireConn) WriteRaw(data []byte)       { c.add("=" + hx(data)) }
+func (c *wireConn) WriteAny(v any) {
+	switch x := v.(type) {
+	case string: // redcon.AppendAny: string → AppendBulkString
+		c.add("$" + hxs(x))
+	case []byte: // → AppendBulk
+		c.add("$" + hx(x))
+	default:
+		c.add("=" + hx(redcon.AppendAny(nil, v)))
+	}
+}
+func (c *wireConn) Context() any                     { return c.ctx }
+func (c *wireConn) SetContext(v any)                 { c.ctx = v }
+func (c *wireConn) SetReadBuffer(int)                {}
+func (c *wireConn) Detach() redcon.DetachedConn      { return nil }
+func (c *wireConn) ReadPipeline() []redcon.Command   { return nil }
+func (c *wireConn) PeekPipeline() []redcon.Command   { return nil }
+func (c *wireConn) NetConn() net.Conn                { return nil }
+
+// wireState renders the real connState of a connection.
+func wireState(c *wireConn) (string, [][][]byte) {
+	inMulti, cmds := server.VerifConnState(c)
+	var b strings.Builder
+	fmt.Fprintf(&b, "C%d %s %d", c.id, b01(inMulti), len(cmds))
+	var reqs [][][]byte
+	for _, cmd := range cmds {
+		var args [][]byte
+		if a, ok := cmd.(interface{ Args() [][]byte }); ok {
+			args = a.Args()
+		}
+		req := append([][]byte{[]byte(cmd.Name())}, args...)
+		reqs = append(reqs, req)
+		fmt.Fprintf(&b, " %d", len(req))
+		for _, x := range req {
+			b.WriteString(" " + hx(x))
+		}
+	}
+	return b.String(), reqs
+}
+
+// wireTTLs lists the relative expiry arguments (in ms) a request may apply, so that the
+// `now + ttl` timestamps it stores can be rewritten to `t1 + ttl`.
+func wireTTLs(req [][]byte) []int64 {
+	if len(req) == 0 {
+		return nil
+	}
+	num := func(i int, mult int64) []int64 {
+		if i < len(req) {
+			if n, err := strconv.Atoi(string(req[i])); err == nil {
+				return []int64{int64(n) * mult}
+			}
+		}
+		return nil
+	}
+	switch strings.ToLower(string(req[0])) {
+	case "expire":
+		return num(2, 1000)
+	case "pexpire":
+		return num(2, 1)
+	case "setex":
+		return num(2, 1000)
+	case "psetex":
+		return num(2, 1)
+	case "set":
+		var out []int64
+		for i := 3; i < len(req); i++ {
+			switch strings.ToLower(string(req[i])) {
+			case "ex":
+				out = append(out, num(i+1, 1000)...)
+			case "px":
+				out = append(out, num(i+1, 1)...)
+			}
+		}
+		return out
+	}
+	return nil
+}
+
+// wireRenderPost prints the post-dump with the timestamps written during [t0, t1] rewritten to
+// t1 and the expiry times `t + ttl` (t in [t0, t1], ttl one of the request's relative expiries)
+// rewritten to t1 + ttl. An etime that the key row already had in the pre-dump is left alone.
+func wireRenderPost(pre, post *dumpT, t0, t1 int64, ttls []int64) string {
+	old := map[int64]*int64{}
+	for i := range pre.keys {
+		old[pre.keys[i].id] = pre.keys[i].etime
+	}
+	basic := func(v int64) int64 {
+		if t0 <= v && v <= t1 {
+			return t1
+		}
+		return v
+	}
+	var b strings.Builder
+	fmt.Fprintf(&b, "K %d", len(post.keys))
+	for _, r := range post.keys {
+		et := "-"
+		if r.etime != nil {
+			v := *r.etime
+			if o, ok := old[r.id]; ok && o != nil && *o == v {
+				// unchanged
+			} else if t0 <= v && v <= t1 {
+				v = t1
+			} else {
+				for _, ttl := range ttls {
+					if ttl != 0 && t0+ttl <= v && v <= t1+ttl {
+						v = t1 + ttl
+						break
+					}
+				}
+			}
+			et = fmt.Sprint(v)
+		}
+		fmt.Fprintf(&b, " %d %s %d %d %s %d %s", r.id, hx(r.key), r.ty, r.version, et, basic(r.mtime), optInt(r.length))
+	}
+	sect := func(tag string, rows []string) {
+		fmt.Fprintf(&b, " %s %d", tag, len(rows))
+		for _, r := range rows {
+			b.WriteByte(' ')
+			b.WriteString(r)
+		}
+	}
+	sect("S", post.strs)
+	sect("L", post.lists)
+	sect("E", post.sets)
+	sect("H", post.hashes)
+	sect("Z", post.zsets)
+	fmt.Fprintf(&b, " F %d", post.fk)
+	return b.String()
+}
+
+type wireStats struct {
+	cmds     map[string]int
+	outcomes map[string]int
+	panics   []string
+	lines    int
+}
+
+var wstats = wireStats{cmds: map[string]int{}, outcomes: map[string]int{}}
+
+// wireOutcome classifies a reply for the histogram.
+func wireOutcome(toks []string, panicked bool) string {
+	if panicked {
+		return "PANIC"
+	}
+	if len(toks) == 0 {
+		return "nothing"
+	}
+	t := toks[0]
+	last := toks[len(toks)-1]
+	kind := func(t string) string {
+		switch t[0] {
+		case '-':
+			b, _ := hexDecode(t[2:])
+			s := string(b)
+			if i := strings.LastIndex(s, " ("); i >= 0 {
+				s = s[:i]
+			}
+			if len(s) > 44 {
+				s = s[:44]
+			}
+			return "err:" + s
+		case '+':
+			return "simple"
+		case ':':
+			return "int"
+		case '$':
+			return "bulk"
+		case '_':
+			return "null"
+		case '*':
+			return "array"
+		}
+		return "raw"
+	}
+	k := kind(t)
+	if k == "array" && last[0] == '-' {
+		return "array…" + kind(last)
+	}
+	return k
+}
+
+func hexDecode(s string) ([]byte, error) {
+	out := make([]byte, len(s)/2)
+	for i := range out {
+		v, err := strconv.ParseUint(s[2*i:2*i+2], 16, 8)
+		if err != nil {
+			return nil, err
+		}
+		out[i] = byte(v)
+	}
+	return out, nil
+}
+
+// wireStep sends one request on one connection and prints its line.
+func wireStep(db *redka.DB, h redcon.HandlerFunc, c *wireConn, req [][]byte) {
+	seq++
+	fail := func(where string, err error) {
+		fmt.Fprintf(os.Stderr, "harness: %s: %v (seq %d)\n", where, err, seq)
+		out.Flush()
+		os.Exit(2)
+	}
+	waitFreshMs()
+	// keep the whole call inside one wall-clock second: TTL replies divide by 1000
+	for nowMs()%1000 >= 900 {
+	}
+	pre, err := takeDump(db.RW)
+	if err != nil {
+		fail("pre-dump", err)
+	}
+	preState, queued := wireState(c)
+	ttls := wireTTLs(req)
+	if strings.EqualFold(string(req[0]), "exec") {
+		for _, q := range queued {
+			ttls = append(ttls, wireTTLs(q)...)
+		}
+	}
+	c.toks = nil
+	panicked := false
+	t0 := nowMs()
+	func() {
+		defer func() {
+			if r := recover(); r != nil {
+				panicked = true
+			}
+		}()
+		h(c, redcon.Command{Args: req})
+	}()
+	t1 := nowMs()
+	lastT1 = t1
+	post, err := takeDump(db.RW)
+	if err != nil {
+		fail("post-dump", err)
+	}
+	postState, _ := wireState(c)
+
+	var rb strings.Builder
+	fmt.Fprintf(&rb, "R %d", len(req))
+	for _, a := range req {
+		rb.WriteString(" " + hx(a))
+	}
+	toks := append([]string(nil), c.toks...)
+	tokS := strings.Join(toks, " ")
+	if len(toks) == 0 {
+		tokS = "."
+	}
+	if panicked {
+		tokS += " !PANIC"
+		wstats.panics = append(wstats.panics, fmt.Sprintf("seq %d: %q", seq, req))
+	}
+	fmt.Fprintf(out, "%d %d wire | %s | %s | %s | %s | %s | %s\n", seq, t1,
+		pre.render(ident), preState, rb.String(), tokS, wireRenderPost(pre, post, t0, t1, ttls), postState)
+
+	name := strings.ToLower(string(req[0]))
+	if !isPrintableASCII(name) || len(name) > 20 {
+		name = "<junk>"
+	}
+	wstats.cmds[name]++
+	wstats.outcomes[wireOutcome(toks, panicked)]++
+	wstats.lines++
+}
+
+func isPrintableASCII(s string) bool {
+	for i := 0; i < len(s); i++ {
+		if s[i] < 33 || s[i] > 126 {
+			return false
+		}
+	}
+	return true
+}
+
+func wirePrintStats() {
+	pr := func(title string, m map[string]int) {
+		ks := make([]string, 0, len(m))
+		for k := range m {
+			ks = append(ks, k)
+		}
+		sort.Strings(ks)
+		fmt.Fprintf(os.Stderr, "%s (%d kinds):", title, len(ks))
+		for _, k := range ks {
+			fmt.Fprintf(os.Stderr, " %s=%d", k, m[k])
+		}
+		fmt.Fprintln(os.Stderr)
+	}
+	fmt.Fprintf(os.Stderr, "wire: %d lines, %d panics\n", wstats.lines, len(wstats.panics))
+	pr("commands", wstats.cmds)
+	pr("outcomes", wstats.outcomes)
+	for i, p := range wstats.panics {
+		if i >= 10 {
+			fmt.Fprintf(os.Stderr, "  … %d more panics\n", len(wstats.panics)-10)
+			break
+		}
+		fmt.Fprintln(os.Stderr, "  panic at", p)
+	}
+}
+
+// wireMain: `verifharness wire -seed N -traces T -len L [-stream valid|malformed|multi|all]`.
 func wireMain() {
-	fmt.Fprintln(os.Stderr, "wire mode not built yet")
-	os.Exit(2)
+	seed := flag.Int64("seed", 1, "PRNG seed")
+	traces := flag.Int("traces", 10, "number of traces (fresh database each)")
+	length := flag.Int("len", 80, "requests per trace")
+	stream := flag.String("stream", "all", "valid | malformed | multi | all | pool | multiseq")
+	nconns := flag.Int("conns", 1, "multiseq: number of connections (1 or 2)")
+	script := flag.String("script", "", "replay file: one request per line, `<conn 1|2> arg arg…` (Go-quoted args allowed)")
+	flag.Parse()
+
+	// handleSingle/handleMulti log every failing command at WARN level
+	slog.SetDefault(slog.New(slog.NewTextHandler(io.Discard, nil)))
+
+	out = bufio.NewWriterSize(os.Stdout, 1<<20)
+	defer out.Flush()
+	if *script != "" {
+		wireScript(*script)
+		out.Flush()
+		wirePrintStats()
+		return
+	}
+	if *stream == "pool" || *stream == "multiseq" {
+		wireEnum(*stream, int(*seed), *traces, *length, *nconns)
+		out.Flush()
+		wirePrintStats()
+		return
+	}
+	rnd := rand.New(rand.NewSource(*seed))
+	streams := []string{"valid", "malformed", "multi"}
+	for t := 0; t < *traces; t++ {
+		s := *stream
+		if s == "all" {
+			s = streams[t%len(streams)]
+		}
+		db := openDB()
+		h := server.VerifHandlers(db)
+		conns := []*wireConn{{id: 1}, {id: 2}}
+		g := newWireGen(rnd, s)
+		for i := 0; i < *length; i++ {
+			ci, req := g.next()
+			wireStep(db, h, conns[ci], req)
+		}
+		db.Close()
+	}
+	out.Flush()
+	wirePrintStats()
+}
+
+// wireScript replays a hand-written request sequence on a fresh database (used for the
+// reproducing requests of findings).
+func wireScript(path string) {
+	data, err := os.ReadFile(path)
+	if err != nil {
+		fmt.Fprintln(os.Stderr, "script:", err)
+		os.Exit(2)
+	}
+	db := openDB()
+	defer db.Close()
+	h := server.VerifHandlers(db)
+	conns := []*wireConn{{id: 1}, {id: 2}}
+	for _, line := range strings.Split(string(data), "\n") {
+		line = strings.TrimSpace(line)
+		if line == "" || strings.HasPrefix(line, "#") {
+			continue
+		}
+		fields := strings.Fields(line)
+		ci := 0
+		if fields[0] == "2" {
+			ci = 1
+		}
+		var req [][]byte
+		for _, f := range fields[1:] {
+			if strings.HasPrefix(f, "\"") {
+				if u, err := strconv.Unquote(f); err == nil {
+					f = u
+				}
+			}
+			req = append(req, []byte(f))
+		}
+		if len(req) == 0 {
+			continue
+		}
+		wireStep(db, h, conns[ci], req)
+	}
+}
+
+// wireEnum runs the deterministic streams. Shard `seed` of the pool stream is the index range
+// [seed*traces*len, (seed+1)*traces*len) of the enumeration, `len` requests per fresh database;
+// shard `seed` of the multiseq stream is `traces` sequences of length `len`, each on a fresh
+// database. Every trace starts with the three set-up requests (k1 string, k2 list, k3 set).
+func wireEnum(stream string, shard, traces, length, conns int) {
+	for t := 0; t < traces; t++ {
+		g := &wGen{rnd: rand.New(rand.NewSource(1)), stream: stream, setup: wSetup}
+		if stream == "pool" {
+			lo := (shard*traces + t) * length
+			for i := lo; i < lo+length && i < wPoolTotal(); i++ {
+				v := wPoolAt(i)
+				req := make([][]byte, len(v))
+				for k, x := range v {
+					req[k] = []byte(x)
+				}
+				short := false
+				for _, ttl := range wireTTLs(req) {
+					if ttl > 0 && ttl < 3600000 {
+						short = true
+					}
+				}
+				if short {
+					continue // a short positive expiry is ambiguous against the wall clock
+				}
+				g.enum = append(g.enum, v)
+				g.enumCi = append(g.enumCi, 0)
+			}
+		} else {
+			i := shard*traces + t
+			if i >= wSeqTotal(length, conns) {
+				break
+			}
+			g.enum, g.enumCi = wSeqAt(i, length, conns)
+			// a final EXEC + read on every connection shows what was left queued / committed
+			for c := 0; c < conns; c++ {
+				g.enum = append(g.enum, []string{"EXEC"}, []string{"GET", "k1"})
+				g.enumCi = append(g.enumCi, c, c)
+			}
+		}
+		if len(g.enum) == 0 {
+			break
+		}
+		db := openDB()
+		h := server.VerifHandlers(db)
+		cs := []*wireConn{{id: 1}, {id: 2}}
+		for i := 0; i < len(g.setup)+len(g.enum); i++ {
+			ci, req := g.next()
+			wireStep(db, h, cs[ci], req)
+		}
+		db.Close()
+	}
 }
